@@ -27,6 +27,7 @@ const (
 	opAdd = iota
 	opCount
 	opValues
+	opCond // ValuesConditional(t, always true): a reader that does not refresh the current slot first
 )
 
 type op struct {
@@ -43,7 +44,7 @@ type op struct {
 }
 
 func (o op) String() string {
-	return fmt.Sprintf("%s@%d", [...]string{"add", "count", "values"}[o.Kind], o.T)
+	return fmt.Sprintf("%s@%d", [...]string{"add", "count", "values", "cond"}[o.Kind], o.T)
 }
 
 type scen struct {
@@ -225,6 +226,8 @@ func (s *scen) threads() []func() {
 					o.result = s.arr.CountWithTime(o.T, cb.MetricEventPass)
 				case opValues:
 					o.starts = sb.VerifStartsOf(s.arr.Values(o.T))
+				case opCond:
+					o.starts = sb.VerifStartsOf(s.arr.ValuesConditional(o.T, func(uint64) bool { return true }))
 				}
 				vsched.Point(vsched.KUser, nil)
 				s.end(ti, j)
@@ -357,6 +360,25 @@ func (s *scen) check(x *vsched.Exec) (string, string) {
 					}
 					if a.Kind == opAdd && a.ret < o.call && s.inWindow(s.bstart(a.T), o.T) && !have[a.field] {
 						return out, fmt.Sprintf("count@%d = %#x lost add@%d although no recorder overlapped a rollover of its bucket", o.T, o.result, a.T)
+					}
+				}
+			}
+		case opCond:
+			sort.Slice(o.starts, func(i, j int) bool { return o.starts[i] < o.starts[j] })
+			out += fmt.Sprintf("k%d=%v;", o.T, o.starts)
+			// The returned slots are live pointers: their starts were read after the call. When no
+			// other operation overlapped this one nothing can have moved, and the set must be exactly
+			// the window's buckets: in particular no bucket that is a whole interval old.
+			alone := true
+			for _, x := range s.allOps() {
+				if x != o && !(x.ret < o.call || x.call > o.ret) {
+					alone = false
+				}
+			}
+			if alone {
+				for _, st := range o.starts {
+					if !(st <= o.T && st+s.interval() > o.T) {
+						return out, fmt.Sprintf("cond@%d returned the expired bucket %d (window is (%d,%d])", o.T, st, int64(o.T)-int64(s.interval()), o.T)
 					}
 				}
 			}
@@ -501,6 +523,15 @@ func scenarios(c *props.Ctx) []*scen {
 					continue
 				}
 				out = append(out, &scen{N: g.N, BL: g.BL, B: g.B, Progs: [][]op{p2[i], p2[j]}, Bound: -1})
+			}
+		}
+		// class A': a non-refreshing conditional reader against every two-op program, and on its own
+		for _, t := range ts {
+			out = append(out, &scen{N: g.N, BL: g.BL, B: g.B, Progs: [][]op{{{Kind: opCond, T: t}}, {{Kind: opCond, T: t}}}, Bound: -1})
+			for i := 0; i < len(p2); i++ {
+				if hasAdd(p2[i]) {
+					out = append(out, &scen{N: g.N, BL: g.BL, B: g.B, Progs: [][]op{p2[i], {{Kind: opCond, T: t}}}, Bound: -1})
+				}
 			}
 		}
 		// class B: three threads, one op each: preemption bound 2 (quick) / all interleavings (thorough)
